@@ -294,6 +294,20 @@ def run(ctx: Ctx):
                         whyw = f"weights' = weights - weights * [count of chosen sets containing the item > 0]: weights cell {is_w}, indicator of a positive count {ind}"
             ctx.ob("C08.d", "MCPEnv._step:weights:uncovered-only", okw, sl.where, whyw, construct=f"{sl.fi.qualname}:weights:formula")
         ctx.sample({"env": cname, "mask_literals": [str(l) for l in leaves][:4]})
+    rows_decided_per_instance(ctx)
+    from .C03 import exact_distances
+    exact_distances(ctx, "C08.j", [("rl4co/envs/graph/flp/env.py", "FLPEnv._step"), ("rl4co/envs/graph/flp/env.py", "FLPEnv._reset"),
+                                   ("rl4co/envs/graph/flp/generator.py", "FLPGenerator._generate")])
+
+
+def rows_decided_per_instance(ctx: Ctx):
+    """C08.i the quota comparison, the selection and the bookkeeping of one instance are computed from that instance's own row:
+    the other C08 rules read `_step` row by row, and this discharges that premise with the batch-axis engine of C04 (a [batch]
+    quota compared with a [batch, 1] counter broadcasts to a [batch, batch] table in which instance 0's quota ends everybody's
+    episode; a reduction over the batch axis; a row pick).  Sinks: every state cell written by `_step` and `_reset` of the four
+    selection environments."""
+    from .C04 import batch_rows
+    batch_rows(ctx, "C08.i", envs=("FLPEnv", "MCPEnv", "DPPEnv", "MDPPEnv"), meths=("_reset", "_step"))
 
 
 def _cell(n):
